@@ -106,8 +106,8 @@ fn check_file_header(s: &Section, text: &str, l: &Labels, cfg: &Cfg) -> Result<(
                 _ => return Err("old path must come before new path".to_string()),
             }
         }
-        SK::RenamedPure | SK::RenamedChanged | SK::CopiedPure | SK::CopiedChanged => {
-            let label = if matches!(s.kind, SK::RenamedPure | SK::RenamedChanged) { &l.renamed } else { &l.copied };
+        SK::RenamedPure | SK::RenamedChanged | SK::CopiedPure | SK::CopiedChanged | SK::RenamedBinary | SK::CopiedBinary => {
+            let label = if matches!(s.kind, SK::RenamedPure | SK::RenamedChanged | SK::RenamedBinary) { &l.renamed } else { &l.copied };
             if !has(label) {
                 return Err(format!("label `{}` missing", label));
             }
@@ -145,8 +145,8 @@ fn check_file_header(s: &Section, text: &str, l: &Labels, cfg: &Cfg) -> Result<(
             }
         }
     }
-    if matches!(s.kind, SK::BinaryModified | SK::BinaryAdded | SK::BinaryDeleted) && !text.contains("binary") {
-        return Err("binary file not reported".to_string());
+    if matches!(s.kind, SK::BinaryModified | SK::BinaryAdded | SK::BinaryDeleted | SK::RenamedBinary | SK::CopiedBinary) && !text.contains("binary") {
+        return Err(BINARY_NOT_REPORTED.to_string());
     }
     if matches!(s.kind, SK::ModeOnly | SK::ModeChanged) {
         let ok = match (s.old_mode.as_str(), s.new_mode.as_str()) {
@@ -161,7 +161,12 @@ fn check_file_header(s: &Section, text: &str, l: &Labels, cfg: &Cfg) -> Result<(
     Ok(())
 }
 
+const BINARY_NOT_REPORTED: &str = "binary file not reported";
+
 fn evaluate(case: &DiffCase, cfg: &Cfg, l: &Labels, out: &[u8]) -> Result<(), Failure> {
+    // A header that lacks only the word `binary` is remembered and reported last, so that a
+    // structural failure (duplicate, missing or misplaced header) in the same case comes first.
+    let mut deferred: Option<Failure> = None;
     let secs = case.sections();
     let sc = term::decode(out);
     let crows = rows::classify_all(&sc);
@@ -203,6 +208,13 @@ fn evaluate(case: &DiffCase, cfg: &Cfg, l: &Labels, out: &[u8]) -> Result<(), Fa
                 match evs.get(next) {
                     Some(Ev::File(si)) => {
                         if let Err(m) = check_file_header(secs[*si], &text, l, cfg) {
+                            if m == BINARY_NOT_REPORTED {
+                                if deferred.is_none() {
+                                    deferred = Some(fail(&format!("binary-not-reported:{}", secs[*si].kind.name()), format!("file header of section {} ({}: {} -> {}) shows `{}`: the file is binary (`Binary files ... differ`) but the header does not say so (output row {})", si, secs[*si].kind.name(), secs[*si].old_path, secs[*si].new_path, text.trim(), ri)));
+                                }
+                                next += 1;
+                                continue;
+                            }
                             return Err(fail("file-header-content", format!("file header of section {} ({}: {} -> {}) shows `{}`: {} (output row {})", si, secs[*si].kind.name(), secs[*si].old_path, secs[*si].new_path, text.trim(), m, ri)));
                         }
                         next += 1;
@@ -261,6 +273,9 @@ fn evaluate(case: &DiffCase, cfg: &Cfg, l: &Labels, out: &[u8]) -> Result<(), Fa
     if next != evs.len() {
         return Err(fail("header-missing", format!("{} of {} expected headers were shown; first missing: {:?} ({})", next, evs.len(), evs[next], match &evs[next] { Ev::File(si) | Ev::Hunk(si, _) => format!("{} {}", secs[*si].kind.name(), secs[*si].new_path) })));
     }
+    if let Some(f) = deferred {
+        return Err(f);
+    }
     Ok(())
 }
 
@@ -308,7 +323,7 @@ impl Prop for C14 {
         match evaluate(&case, &cfg, &labels, &out) {
             Ok(()) => {
                 let secs = case.sections();
-                let special = secs.iter().any(|s| matches!(s.kind, SK::RenamedPure | SK::RenamedChanged | SK::CopiedPure | SK::CopiedChanged | SK::ModeOnly | SK::ModeChanged | SK::BinaryModified | SK::BinaryAdded | SK::BinaryDeleted));
+                let special = secs.iter().any(|s| matches!(s.kind, SK::RenamedPure | SK::RenamedChanged | SK::CopiedPure | SK::CopiedChanged | SK::ModeOnly | SK::ModeChanged | SK::BinaryModified | SK::BinaryAdded | SK::BinaryDeleted | SK::RenamedBinary | SK::CopiedBinary));
                 let odd_path = secs.iter().any(|s| s.new_path.contains(' ') || !s.new_path.is_ascii() || s.old_path.contains(' ') || !s.old_path.is_ascii());
                 if special && odd_path {
                     let mut h = fnv(&input);
@@ -327,6 +342,9 @@ impl Prop for C14 {
             Err(mut f) => {
                 f.detail = json!({"case": exec::case_json(&cfg, &input), "output_printable": exec::printable(&out[..out.len().min(6000)])});
                 let secs = case.sections();
+                if f.signature == "C14:binary-not-reported:renamed-binary" || f.signature == "C14:binary-not-reported:copied-binary" {
+                    f.traits.push("renamed-or-copied-binary-section".to_string());
+                }
                 if secs.windows(2).any(|w| w[0].kind == SK::PlainDiffU && w[1].kind == SK::PlainDiffU && w[0].old_path == w[1].old_path && w[0].new_path == w[1].new_path) {
                     f.traits.push("plain-diff-same-pair-twice".to_string());
                 }
